@@ -36,27 +36,42 @@ logging.disable(logging.CRITICAL)
 
 EXTRA = {
     "assumptions": [
-        "opening succeeds: the path exists, is readable / writable and (for .xlsx) is a well-formed workbook; a failure "
-        "inside open() / load_workbook() / wb.save() itself is openpyxl's or the OS's exit path, not modelled",
+        "opening a root / a single source succeeds: the path given to read_csv / read_excel / write_* exists, is readable "
+        "/ writable and (for .xlsx) is a well-formed workbook. For load_files a missing, duplicated, unsupported (.txt) or "
+        "refused (LoadError) *include* is modelled (a `gap` between two files that `throwInGap` hits) and generated",
+        "PARTIAL - write_excel(backend=XLSXWRITER) is NOT covered: write_excel_xlsxwriter is `wb = xlsxwriter.Workbook(path) "
+        "... wb.close()` with neither `with` nor try/finally (frame-table row: opener outside any with + explicit close; "
+        "pinned, excluded from EnclosedByWith). Whether a failing table leaves the target open depends on when xlsxwriter "
+        "opens it; the module is not installed here and no wheel is available offline, so this is neither observed nor "
+        "exercised. Theorems xlsxwriter_closes_if_target_opened_in_close / xlsxwriter_leaks_if_target_opened_in_constructor "
+        "state both cases; writer_closes_on_failure_partial names the gap",
         "CPython semantics (trusted, DESIGN §4): `with` runs its exit on every route exactly once; close()/drop/throw() "
         "raise at the suspension point; `yield from` forwards them; reference counting finalises a generator as soon as "
         "only an unwinding frame referred to it; a generator never started holds nothing. A leak that needs a reference "
         "cycle or a non-refcounting interpreter cannot be exhibited by the model (the harness observes with gc disabled)",
         "openpyxl / zipfile behaviour observed, not proved: a read-only workbook keeps one descriptor for the archive and "
         "its open member streams (closed when the archive and every member stream are closed); ZipFile never closes a "
-        "file object that was passed in; `wb.save(target)` opens and closes the archive inside the call",
-        "errors are raised while a block is produced (illegal cell + raising tracker, raising filter) or thrown by the "
-        "consumer; an include directive or a sheet that is consumed without being yielded cannot be the failing block",
+        "file object that was passed in; wb.save(BytesIO / caller stream) opens no file; a failure inside wb.save is a "
+        "modelled exit (gap) and is generated (timezone-aware datetime cell; patched ExcelWriter.write_data)",
+        "a failure of `f.write(bytes)` inside `with open(path, 'wb')` of write_excel_openpyxl (disk full) is modelled (gap "
+        "inside the with frame) but not generated",
+        "errors are raised while a block is produced (illegal cell + raising tracker, raising filter), between two files "
+        "of load_files, while a workbook is serialised, or thrown by the consumer; an include directive or a sheet that "
+        "is consumed without being yielded cannot be the failing block",
         "single consumer thread; no concurrent modification of the files",
     ],
     "explanation": (
         "Theorems (Props/C19.lean): api_closes_what_it_opened / library_handles_closed (every history that ends the "
         "consumption leaves nothing open, each handle closed exactly once, none closed twice), caller_stream_untouched, "
-        "api_error_closes_immediately + api_never_defers (an error closes before it reaches the caller, nothing waits "
-        "for the traceback), writer_closes_on_failure, disciplined_wf (the `with` discipline suffices for arbitrary "
-        "nesting of with / yield from / held generators / sequencing), source_enclosed + withFrames_pinned (the "
-        "translated frame table of the current source meets the hypothesis). Partial in the sense of DESIGN §5 C19: "
-        "the generator / refcount semantics is CPython's and is a stated rule of the model, checked by correspondence."
+        "api_error_closes_immediately + api_gap_error_closes_immediately + api_never_defers (an error in a block or "
+        "between two files closes before it reaches the caller, nothing waits for the traceback), "
+        "writer_closes_on_failure_partial + write_excel_save_failure_closes (write_csv and write_excel/openpyxl; "
+        "XLSXWRITER backend excluded, see assumptions), disciplined_wf (the `with` discipline suffices for arbitrary "
+        "nesting of with / yield from / held generators / sequencing / gaps), source_enclosed + withFrames_pinned (the "
+        "translated frame table of the current source meets the hypothesis). Regression shapes documented by decide: "
+        "unmanaged_rows_defer (D18), unbuffered_save_defers (D31), bare_open_leaks, no_closing_leaks, "
+        "explicit_close_closes_caller_stream. Partial in the sense of DESIGN §5 C19: the generator / refcount semantics "
+        "is CPython's and is a stated rule of the model, checked by correspondence; the xlsxwriter backend is excluded."
     ),
     "trusted_base": [
         "CPython 3.12 generator protocol, `with` statement and reference counting (encoded as the combinators and the "
@@ -201,7 +216,13 @@ def _gen_blocks(rng, names, allow_include=None):
     return blocks
 
 
-def gen_scenario(rng, api, inject, pat_mode=None):
+GAP_KINDS = ["missing", "dup", "txt", "loaderror"]
+
+
+def gen_scenario(rng, api, inject, pat_mode=None, gapkind=None, host_empty=None):
+    """gapkind (load_files only): the k-th include names a file that does not exist / that was already read / with
+    an unsupported extension / that the loader refuses (LoadError): the failure is raised by queued_load between
+    two files, not while a block is produced"""
     names = ["t%d" % i for i in range(40)]
     files = []
     kind = "csv" if api.startswith("read_csv") else "xlsx" if api.startswith("read_excel") else None
@@ -244,7 +265,7 @@ def gen_scenario(rng, api, inject, pat_mode=None):
     pattern = PAT_MODES[pat_mode]
     # the target table of the injection: one that is actually read
     target = None
-    if inject != "none":
+    if inject != "none" and not (gapkind and api == "load_files"):      # (gap scenarios vary the tracker only)
         cands = []
         for f in files:
             for sh in f["sheets"]:
@@ -261,10 +282,24 @@ def gen_scenario(rng, api, inject, pat_mode=None):
                                 b["bad"] = True
         else:
             inject = "none"
+    extra_files = {}
+    if gapkind and api == "load_files":
+        host = files[rng.choice(roots)]
+        tgt = {"missing": "nofile." + rng.choice(["csv", "xlsx"]), "dup": host["name"], "txt": "notes.txt",
+               "loaderror": "\\x.csv"}[gapkind]
+        if gapkind == "txt":
+            extra_files["notes.txt"] = "not a table file\n"
+        if host_empty is None:
+            host_empty = rng.random() < 0.3
+        if host_empty:
+            # the including file delivers nothing itself: the failure comes after a file boundary without a block
+            host["sheets"] = [{"name": "keep0", "blocks": []}]
+        blocks = host["sheets"][0]["blocks"]
+        blocks.insert(rng.randrange(len(blocks) + 1), {"d": "include", "lines": [tgt], "gap": gapkind})
     has_include = any(b.get("d") == "include" for f in files for sh in f["sheets"] for b in sh["blocks"])
     folder = api == "load_files" and not has_include and rng.random() < 0.5
     return {"api": api, "inject": inject, "target": target, "files": files, "roots": roots, "pattern": pattern,
-            "pat_mode": pat_mode,
+            "pat_mode": pat_mode, "gapkind": gapkind if api == "load_files" else None, "extra_files": extra_files,
             "str_path": rng.random() < 0.5, "folder": folder}
 
 
@@ -281,13 +316,15 @@ def _read_order(sc, scratch=None):
     while stack:
         f = stack.pop()
         order.append(f)
+        if "gap" in f:
+            continue
         for sh in f["sheets"]:
             if not _sheet_is_read(sc.get("pattern"), f, sh["name"]):
                 continue                               # an include directive in a sheet that is not read is not seen
             for b in sh["blocks"]:
                 if b.get("d") == "include":
                     for ln in b["lines"]:
-                        stack.append(by_name[ln])
+                        stack.append({"gap": b["gap"]} if b.get("gap") else by_name[ln])
     return order
 
 
@@ -296,7 +333,7 @@ def build_model_prog(sc, refs, scratch=None):
     inject, target, pattern = sc["inject"], sc["target"], sc["pattern"]
     raising = inject in ("cell", "tracker_raise", "filter_raise")
     skipping = inject in ("tracker_collect", "filter_drop")
-    state = {"delivered": 0, "fail_at": None}
+    state = {"delivered": 0, "fail_at": None, "gap": None}
 
     def file_points(f, is_load):
         """per sheet: list of (kept, after_exhaustion) for the blocks that are produced"""
@@ -324,8 +361,18 @@ def build_model_prog(sc, refs, scratch=None):
     api = sc["api"]
     if api == "load_files":
         fl = [{"kind": "folder"}] if sc.get("folder") else []
+        gaps_since_delivery = len(fl)
         for f in _read_order(sc, scratch):
+            if "gap" in f:
+                if f["gap"] == "dup" and inject == "tracker_collect":
+                    continue                  # the tracker swallows the duplicate: the item is skipped, nothing raised
+                # the item raises when it is popped: between two files, at the gap in front of this entry
+                state["gap"] = (state["delivered"], gaps_since_delivery)
+                fl.append({"kind": "folder"})
+                break
+            before = state["delivered"]
             sheets = file_points(f, True)
+            gaps_since_delivery = 0 if state["delivered"] > before else gaps_since_delivery + 1
             keep = [k for _, pts in sheets for k, _ in pts]
             if f["kind"] == "csv":
                 fl.append({"kind": "csv", "f": f["id"], "n": len(keep), "keep": keep})
@@ -340,12 +387,18 @@ def build_model_prog(sc, refs, scratch=None):
             prog = {"fn": "read_csv", "src": src, "n": len(sheets[0][1])}
         else:
             prog = {"fn": "read_excel", "src": src, "sheets": [sheet_json(r, p) for r, p in sheets]}
-    return prog, state["delivered"], state["fail_at"]
+    return prog, state["delivered"], state["fail_at"], state["gap"]
 
 
-def gen_histories(total, fail_at, rng, full):
-    """every prefix length x every way of ending the consumption; `next` that is known to fail is `throwInBlock`"""
+def gen_histories(total, fail_at, rng, full, gap=None):
+    """every prefix length x every way of ending the consumption; a `next` that is known to fail is `throwInBlock`
+    (the block being produced fails) or `throwInGap:<skip>` (queued_load fails between two files, after passing
+    <skip> file boundaries without a block)"""
     reach = total if fail_at is None else fail_at
+    if gap is not None and (fail_at is None or gap[0] <= fail_at):
+        reach, fail_at = gap[0], None
+    else:
+        gap = None
     hs = []
     ks = list(range(0, reach + 2))
     if not full and len(ks) > 7:
@@ -360,6 +413,8 @@ def gen_histories(total, fail_at, rng, full):
                     h.append("next")
                 elif fail_at is not None and delivered == fail_at:
                     h.append("throwInBlock"); alive = False; exc = True
+                elif gap is not None and delivered == gap[0]:
+                    h.append("throwInGap:%d" % gap[1]); alive = False; exc = True
                 elif delivered == total:
                     h.append("next"); alive = False
                 else:
@@ -506,7 +561,7 @@ def run_reader_history(sc, paths, scratch, history):
         try:
             for a in history:
                 out = "none"
-                if a in ("next", "throwInBlock"):
+                if a in ("next", "throwInBlock") or a.startswith("throwInGap"):
                     try:
                         if g is None:
                             raise StopIteration
@@ -552,12 +607,21 @@ def _good_table(name):
     return Table(pd.DataFrame({"a": [1.0, 2.0], "b": ["x", "y"]}), name=name, units=["m", "text"])
 
 
+SAVE_HOWS = ("save_tz", "save_patched")    # write_excel: every table is accepted, serialising the workbook fails
+
+
 def _bad_table(api, how):
     import pandas as pd
     from pdtable import Table
     from pdtable.table_metadata import ColumnFormat
     if how == "not_a_table":
         return object()
+    if how == "save_tz":
+        # accepted by ws.append; openpyxl converts the cell only in wb.save: "Excel does not support timezones"
+        return Table(pd.DataFrame({"t": pd.to_datetime(["2020-01-01"]).tz_localize("UTC")}), name="tz",
+                     units=["datetime"])
+    if how == "save_patched":
+        return _good_table("ok")
     if api == "write_csv":
         t = _good_table("bad")
         t.column_metadata["a"].display_format = ColumnFormat("d")     # '{:d}'.format(1.0) raises ValueError
@@ -594,13 +658,30 @@ def run_writer(api, dst_mode, n, fail_at, how, scratch):
 
         def feed():
             for i, t in enumerate(tables):
-                if i != fail_at:
+                if i != fail_at or how in SAVE_HOWS:
                     snap("yielded")          # the writer asks for table i: the state in which it is serialised
                 yield t
         held = None
+        unpatch = None
+        if how == "save_patched":
+            # a failure inside openpyxl's save after the archive was opened (patched in this process only)
+            import openpyxl.writer.excel as _xw
+            orig_write_data = _xw.ExcelWriter.write_data
+
+            def failing_write_data(self):
+                self._archive.writestr("partial.txt", "x")
+                raise _Injected("inside wb.save")
+            _xw.ExcelWriter.write_data = failing_write_data
+            unpatch = lambda: setattr(_xw.ExcelWriter, "write_data", orig_write_data)   # noqa: E731
         try:
             try:
-                (write_csv if api == "write_csv" else write_excel)(feed(), dst)
+                if api == "write_csv":
+                    write_csv(feed(), dst)
+                elif api == "write_excel_xlsxwriter":
+                    from pdtable.io.excel import ExcelWriteBackend
+                    write_excel(feed(), dst, backend=ExcelWriteBackend.XLSXWRITER)
+                else:
+                    write_excel(feed(), dst)
                 snap("stopped")
             except Exception as e:           # noqa
                 held = e
@@ -610,6 +691,8 @@ def run_writer(api, dst_mode, n, fail_at, how, scratch):
             snap("none")
         finally:
             held = None
+            if unpatch:
+                unpatch()
             if stream is not None:
                 stream.close()
         rw = [str(w.message) for w in wlog
@@ -621,10 +704,15 @@ def run_writer(api, dst_mode, n, fail_at, how, scratch):
     return states, rw
 
 
-def writer_history(n, fail_at):
+def writer_history(n, fail_at, how="-"):
+    """the writer's run as machine actions; after the end: one neutral action while the exception is still held
+    (`close` on a finished run changes nothing), then its release"""
+    tail = ["close", "releaseExc"]
+    if how in SAVE_HOWS:
+        return ["next"] * n + ["throwInGap:0"] + tail
     if fail_at is None:
-        return ["next"] * (n + 1) + ["releaseExc", "releaseExc"]
-    return ["next"] * fail_at + ["throwInBlock", "releaseExc", "releaseExc"]
+        return ["next"] * (n + 1) + tail
+    return ["next"] * fail_at + ["throwInBlock"] + tail
 
 
 # --------------------------------------------------------------------------------------------- oracle
@@ -673,7 +761,9 @@ def oracle_writer(api, states, rw, out, case):
         if st["fds"]:
             out.fail("the writer left the file it created open" + (" after a table failed to serialise"
                      if states[-3]["out"] == "raised" else ""), case, {"states": states[-3:]},
-                     "no descriptor into the scratch directory", key="C19:fd-open-after-write:" + api)
+                     "no descriptor into the scratch directory",
+                     key="C19:write_excel-fd-open-after-save-failure" if case.get("how") in SAVE_HOWS
+                     else "C19:fd-open-after-write:" + api)
             return False
     if rw:
         out.fail("a file the writer opened was left to the deallocator (ResourceWarning)", case, {"warnings": rw[:3]},
@@ -704,7 +794,7 @@ def _compare(states, model, out, what, case):
 def _scenario_case(sc, k, term, history):
     return {"kind": "reader", "api": sc["api"], "inject": sc["inject"], "target": sc["target"],
             "pattern": sc["pattern"], "pat_mode": sc.get("pat_mode"), "roots": sc["roots"], "files": sc["files"], "str_path": sc.get("str_path", True),
-            "folder": sc.get("folder", False),
+            "folder": sc.get("folder", False), "gapkind": sc.get("gapkind"), "extra_files": sc.get("extra_files") or {},
             "prefix": k, "end": term,
             "history": history}
 
@@ -714,7 +804,12 @@ def run_scenario(sc, rng, full, out, ops, pend, model_ok):
     try:
         paths = {f["id"]: _write_file(scratch, f) for f in sc["files"]}
         refs = {f["id"]: _reference_blocks(paths[f["id"]], f["kind"]) for f in sc["files"]}
-        prog, total, fail_at = build_model_prog(sc, refs, scratch)
+        for name, text in (sc.get("extra_files") or {}).items():
+            with open(os.path.join(scratch, name), "w") as fh:
+                fh.write(text)
+        prog, total, fail_at, gap = build_model_prog(sc, refs, scratch)
+        if sc.get("gapkind"):
+            out.count("load_files:gap:%s:%s" % (sc["gapkind"], "raises" if gap else "swallowed_by_tracker"))
         if sc.get("folder"):
             out.count("load_files:folder_root")
         if any(b.get("d") == "include" for f in sc["files"] for sh in f["sheets"] for b in sh["blocks"]):
@@ -730,7 +825,7 @@ def run_scenario(sc, rng, full, out, ops, pend, model_ok):
         if not sc["api"].startswith("read_csv"):
             out.count("sheet_pattern:%s:%s" % (sc["api"].split(":")[0], sc.get("pat_mode")))
         out.count("blocks:%d" % min(total, 9))
-        for k, term, history in gen_histories(total, fail_at, rng, full):
+        for k, term, history in gen_histories(total, fail_at, rng, full, gap):
             case = _scenario_case(sc, k, term, history)
             states, rw = run_reader_history(sc, paths, scratch, history)
             ok = oracle_reader(sc, k, term, history, states, rw, out, case)
@@ -753,26 +848,52 @@ def run_scenario(sc, rng, full, out, ops, pend, model_ok):
         shutil.rmtree(scratch, ignore_errors=True)
 
 
+def _xlsxwriter_available():
+    try:
+        import xlsxwriter  # noqa: F401
+        return True
+    except Exception:       # noqa
+        return False
+
+
 def run_writers(rng, full, out, ops, pend, model_ok):
     scratch = tempfile.mkdtemp(prefix="c19w-")
     try:
+        if _xlsxwriter_available():
+            # oracle only: when xlsxwriter opens its target is not known to the model (Props: xlsxwriter_* theorems)
+            for dst_mode in ("path", "file"):
+                for n in (1, 3):
+                    for fail_at in [None] + list(range(n)):
+                        case = {"kind": "writer", "api": "write_excel_xlsxwriter", "dst": dst_mode, "n": n,
+                                "fail_at": fail_at, "how": "not_a_table" if fail_at is not None else "-"}
+                        states, rw = run_writer("write_excel_xlsxwriter", dst_mode, n, fail_at, case["how"], scratch)
+                        oracle_writer("write_excel_xlsxwriter", states, rw, out, case)
+                        out.case(case, nontrivial=n >= 2 and fail_at is not None)
+                        out.count("api:write_excel_xlsxwriter:" + dst_mode)
+        else:
+            out.count("write_excel_xlsxwriter:NOT_EXERCISED_module_not_installed")
+            out.notes.append("write_excel(backend=XLSXWRITER) was not exercised: the xlsxwriter module is not installed "
+                             "(and no wheel is available offline); its row of the frame table is pinned and excluded "
+                             "from EnclosedByWith; see writer_closes_on_failure_partial and the xlsxwriter_* theorems")
         for api in ("write_csv", "write_excel"):
             for dst_mode in ("path", "pathlike", "file", "memory"):
                 ns = [0, 1, 2, 3, 4] if full else [0, 1, 3]
                 for n in ns:
                     for fail_at in [None] + list(range(n)):
                         hows = ["format", "not_a_table"] if fail_at is not None else ["-"]
+                        if api == "write_excel":
+                            hows = hows + (["save_tz"] if fail_at is not None else ["save_patched"])
                         for how in hows:
                             case = {"kind": "writer", "api": api, "dst": dst_mode, "n": n, "fail_at": fail_at, "how": how}
                             states, rw = run_writer(api, dst_mode, n, fail_at, how, scratch)
                             oracle_writer(api, states, rw, out, case)
-                            out.case(case, nontrivial=n >= 2 and fail_at is not None)
+                            out.case(case, nontrivial=n >= 2 and (fail_at is not None or how in SAVE_HOWS))
                             out.count("api:" + api + ":" + dst_mode)
-                            out.count("writer_fail:" + ("none" if fail_at is None else how))
+                            out.count("writer_fail:" + (how if (fail_at is not None or how in SAVE_HOWS) else "none"))
                             if model_ok:
                                 src = {"path": 0} if dst_mode in ("path", "pathlike") else {"stream": 0}
                                 ops.append({"op": "resource", "prog": {"fn": api, "src": src, "n": n},
-                                            "history": writer_history(n, fail_at)})
+                                            "history": writer_history(n, fail_at, how)})
                                 pend.append(("writer " + api, case, states))
     finally:
         with warnings.catch_warnings():
@@ -789,7 +910,9 @@ def run(tier, seed, model_ok, translator, search=False):
                 "tracker, raising / dropping filter); for each scenario EVERY prefix length 0..n+1 x {exhaust, close, drop, "
                 "throw} (+ release of the caught exception, + actions on the finished iterator); writers: {csv, excel} x "
                 "{str path, PathLike, open file, in-memory stream} x n tables x failing table at every position x {bad "
-                "format / cell, not a Table}. Non-trivial: >= 2 blocks (readers), >= 2 tables and a failure (writers).")
+                "format / cell, not a Table} + write_excel failing while the workbook is serialised (timezone-aware cell, "
+                "patched openpyxl writer); load_files with the k-th include missing / duplicated / .txt / refused, under the "
+                "default, a raising and a collecting tracker (failure between two files). Non-trivial: >= 2 blocks (readers), >= 2 tables and a failure (writers).")
     rng = make_rng(seed, "C19")
     full = tier == "thorough"
     per_api = 70 if full else 8
@@ -817,6 +940,15 @@ def run(tier, seed, model_ok, translator, search=False):
                 run_scenario(sc, rng, full, out, ops, pend, model_ok)
                 if len(out.failures) >= 20:
                     break
+        # load_files: the k-th include is missing / a duplicate / a .txt / refused by the loader, under each tracker
+        gap_runs = [(gk, tr) for gk in GAP_KINDS for tr in ("none", "tracker_raise", "tracker_collect")]
+        if not full:
+            gap_runs = [gr for i, gr in enumerate(gap_runs) if i % 3 == seed % 3 or gr == ("dup", "tracker_collect")]
+        for rep_i in range(4 if full else 1):
+            for gi, (gk, tr) in enumerate(gap_runs):
+                sc = gen_scenario(rng, "load_files", tr, rng.choice(["nopattern", "all"]), gapkind=gk,
+                                  host_empty=True if (rep_i == 0 and gi == 0) else None)
+                run_scenario(sc, rng, full, out, ops, pend, model_ok)
     finally:
         if gc_was:
             gc.enable()
@@ -849,6 +981,9 @@ def replay(rep):
         else:
             sc = {k: inp.get(k) for k in ("api", "inject", "target", "pattern", "roots", "files", "str_path", "folder")}
             paths = {f["id"]: _write_file(scratch, f) for f in sc["files"]}
+            for name, text in (inp.get("extra_files") or {}).items():
+                with open(os.path.join(scratch, name), "w") as fh:
+                    fh.write(text)
             states, rw = run_reader_history(sc, paths, scratch, inp["history"])
             oracle_reader(sc, inp.get("prefix"), inp.get("end"), inp["history"], states, rw, out, inp)
     finally:
